@@ -164,8 +164,16 @@ def run(ctx):
                 okp = nv_ is not None and c_ == ("cmp", ">", nv_) and T.select(acc, c_, False) == head_s
                 inner_ = T.select(acc, c_, True)
                 okn = inner_[0] == "phi" and inner_[1] == ("is", head_s, T.NONE) and T.select(inner_, inner_[1], True)[0] == "s"
+                later_ = T.select(inner_, inner_[1], False) if okn else None
+                okn = okn and later_[0] == "f" and later_[1].endswith("concatenate")
                 ctx.decide(okp and okn, "C10.init", construct, loc, "rows are accumulated whenever a round kept at least one; the first round starts the population",
                            f"accumulation is conditioned on {T.show(c_)[:100]} / {T.show(inner_[1])[:80] if inner_[0] == 'phi' else 'no first-round case'}", disc="when")
+            # both start empty
+            pre_c, pre_s = lp["pre"].get(cname) if cname else None, lp["pre"].get(sname[0]) if sname else None
+            ctx.decide(pre_c is not None and T.const_value(pre_c) == 0 and pre_s == T.NONE, "C10.init", construct, loc,
+                       "the counter starts at 0 and the population starts empty",
+                       f"before the first round the counter is {T.show(pre_c) if pre_c else None} and the population is {T.show(pre_s)[:80] if pre_s else None}: "
+                       "the returned population is not the requested size", disc="start")
             # counter
             cb = lp["body"].get(cname) if cname else None
             okc = False
@@ -247,7 +255,22 @@ def run(ctx):
                f"coordinates are overwritten in place at {bad[:3]} (cached densities would go stale)")
     ctx.count("functions_scanned", sum(1 for _ in repo.all_functions()))
 
+    # ------------------------------------------------------------ who may write into an array: only its owner
+    from . import own
+    PRIMITIVE = "aspire.utils:update_at_indices"  # the write primitive itself; every caller is checked instead
+    n_sinks = 0
+    for f in repo.all_functions():
+        if f.ident == PRIMITIVE:
+            continue
+        for node, desc, st, name in own.analyse(f):
+            n_sinks += 1
+            ctx.decide(st == own.OWNED, "C10.own", f.ident, loc_of(f, node), f"{desc}: the array written into was created in this function (copy / new array)",
+                       f"{desc} writes into `{name}`, which may be (a view of) an argument or attribute: the caller's array -- e.g. the coordinates of a population whose "
+                       "log-densities are cached -- is changed in place", disc=f"{name}|{sum(1 for x in own.analyse(f) if x[0].lineno < node.lineno)}")
+    ctx.floor("in-place array writes analysed", n_sinks, 10)
 
+
+_T = "src/aspire/transforms.py"
 _MC = "src/aspire/samplers/mcmc.py"
 _MP = "src/aspire/samplers/smc/minipcn.py"
 _E = "src/aspire/samplers/smc/emcee.py"
@@ -264,6 +287,8 @@ MUTANTS = [
     M("initial: log_q from a second draw", _MC, "x, log_q = self.prior_flow.sample_and_log_prob(n_samples)\n            new_samples = Samples(", "x, _ = self.prior_flow.sample_and_log_prob(n_samples)\n            _, log_q = self.prior_flow.sample_and_log_prob(n_samples)\n            new_samples = Samples(", "C10.init"),
     M("initial: mask on the wrong quantity", _MC, "valid = self.xp.isfinite(new_samples.log_prior)", "valid = self.xp.isfinite(new_samples.log_q)", "C10.init"),
     M("initial: counts all draws", _MC, "n_samples_drawn += n_valid", "n_samples_drawn += len(new_samples.x)", "C10.init"),
+    M("initial: counter starts at one", _MC, "n_samples_drawn = 0", "n_samples_drawn = 1", "C10.init"),
+    M("initial: later rounds dropped", _MC, "samples = Samples.concatenate(\n                        [samples, new_samples[valid]]\n                    )", "pass", "C10.init"),
     M("initial: never trimmed", _MC, "if n_samples_drawn > n_samples:\n            samples = samples[:n_samples]\n", "", "C10.init"),
     M("initial: off-by-one guard", _MC, "while n_samples_drawn < n_samples:", "while n_samples_drawn < n_samples - 1:", "C10.init"),
     M("initial: keeps unfiltered rows", _MC, "samples = new_samples[valid]\n                else:", "samples = new_samples\n                else:", "C10.init"),
@@ -275,7 +300,18 @@ MUTANTS += [
     M("enlargement returns the unmutated resample", "src/aspire/samplers/smc/base.py", "samples = self.mutate(final_samples, 1.0, n_steps=n_final_steps)", "samples = final_samples", "C10.final"),
     M("enlargement resamples at the wrong temperature", "src/aspire/samplers/smc/base.py", "final_samples = samples.resample(\n                1.0, n_samples=n_final_samples, rng=self.rng\n            )", "final_samples = samples.resample(\n                beta, n_samples=n_final_samples, rng=self.rng\n            )", "C10.final"),
 ]
+MUTANTS += [
+    M("forward transform writes into its argument", _T, "x = copy_array(x, xp=self.xp)\n        x = self.xp.atleast_2d(x)\n        log_abs_det_jacobian = self.xp.zeros(len(x), device=self.device)\n        if self.periodic_parameters:",
+      "x = self.xp.atleast_2d(x)\n        log_abs_det_jacobian = self.xp.zeros(len(x), device=self.device)\n        if self.periodic_parameters:", "C10.own"),
+    M("inverse transform writes into its argument", _T, "x = copy_array(x, xp=self.xp)\n        x = self.xp.atleast_2d(x)\n        log_abs_det_jacobian = self.xp.zeros(len(x), device=self.device)\n        if self.affine_transform:",
+      "x = self.xp.atleast_2d(x)\n        log_abs_det_jacobian = self.xp.zeros(len(x), device=self.device)\n        if self.affine_transform:", "C10.own"),
+    M("fit writes into the fitting data", _T, "x = copy_array(x, xp=self.xp)\n        if self.periodic_parameters:", "if self.periodic_parameters:", "C10.own"),
+    M("fit copies only without periodic parameters", _T, "x = copy_array(x, xp=self.xp)\n        if self.periodic_parameters:", "if not self.periodic_parameters:\n            x = copy_array(x, xp=self.xp)\n        if self.periodic_parameters:", "C10.own"),
+    M("nan patch written into the cached likelihood", "src/aspire/samplers/smc/base.py", "log_prob = update_at_indices(\n            log_prob, self.xp.isnan(log_prob), -self.xp.inf\n        )", "update_at_indices(samples.log_likelihood, self.xp.isnan(log_prob), -self.xp.inf)", "C10.own"),
+]
 NEUTRALS = [
+    M("forward copies through a temporary", _T, "x = copy_array(x, xp=self.xp)\n        x = self.xp.atleast_2d(x)\n        log_abs_det_jacobian = self.xp.zeros(len(x), device=self.device)\n        if self.periodic_parameters:",
+      "x2 = copy_array(x, xp=self.xp)\n        x = self.xp.atleast_2d(x2)\n        log_abs_det_jacobian = self.xp.zeros(len(x), device=self.device)\n        if self.periodic_parameters:"),
     M("minipcn: log_q via temporary", _MP, "samples.log_q = samples.array_to_namespace(\n            self.prior_flow.log_prob(samples.x)\n        )", "lq = self.prior_flow.log_prob(samples.x)\n        samples.log_q = samples.array_to_namespace(lq)"),
     M("initial: guard mirrored", _MC, "while n_samples_drawn < n_samples:", "while n_samples > n_samples_drawn:"),
     M("initial: counter explicit", _MC, "n_samples_drawn += n_valid", "n_samples_drawn = n_valid + n_samples_drawn"),
@@ -288,4 +324,7 @@ ANCHORS = [
     'aspire.samplers.smc.emcee:EmceeSMC.mutate',
     'aspire.samplers.smc.blackjax:BlackJAXSMC.mutate',
     'aspire.samplers.importance:ImportanceSampler.sample',
+    'aspire.transforms:CompositeTransform.fit',
+    'aspire.transforms:CompositeTransform.forward',
+    'aspire.transforms:CompositeTransform.inverse',
 ]
